@@ -30,10 +30,24 @@ def cases(tier, rng, run):
     n, ln = (2500, 12) if tier == "quick" else (20000, 40)
     for _ in range(n):
         out.append(Case(gen_hist.gen_hist(rng, ln), "hist"))
+    # provider histories in which a BODY changes what a provider returns while its call is running (the C12 generator): the context of the
+    # running call is its own — the return value is judged under the mapping the call started with (per-call oracle of checks/c12.py)
+    from checks import c12
+
+    k = 0
+    while k < (500 if tier == "quick" else 6000):
+        line = c12.gen(rng, tier)
+        if "|set:" in line:
+            out.append(Case(line, "prov-history"))
+            k += 1
     return out
 
 
 def judge(case, impl_out, spec):
+    if case.tag == "prov-history":
+        from checks import c12
+
+        return c12.judge(case, impl_out, spec)
     last = impl_out.split(" ## ")[-1]
     if last.startswith("state"):
         if "provsame=0" in last:
@@ -59,7 +73,9 @@ def search(run, tier):
     cands = [f for f in run.findings if f.kind == "broken-correspondence" and f.case is not None and f.case.line.startswith("HIST")]
     found = 0
     found += _siblings_and_process(run, cands)
-    for f in cands[:60]:
+    # (a history in which a BODY updates a provider cannot be replayed with calls left out: the calls left out may be what changed the provider)
+    cands = [f for f in cands if "|set:" not in f.case.line] + [f for f in cands if "|set:" in f.case.line]
+    for f in [f for f in cands if "|set:" not in f.case.line][:60]:
         steps = f.case.line.split("\t")[1:]
         io, mo = f.impl.split(" ## "), f.model.split(" ## ")
         out_steps = [i for i, s in enumerate(steps) if s.startswith("C|") or s.startswith("D|")]
@@ -142,7 +158,7 @@ def _siblings_and_process(run, cands) -> int:
         parts = impl.handle("HIST\t" + "\t".join(steps)).split(" ## ")
         return parts[-2] if len(parts) >= 2 and parts[-1].startswith("state") else None
 
-    for f in cands[:12]:
+    for f in [f for f in cands if "|set:" not in f.case.line][:12]:
         steps = f.case.line.split("\t")[1:]
         c_idx = [i for i, s in enumerate(steps) if s.startswith("C|")]
         for si in c_idx[:14]:
@@ -258,6 +274,25 @@ def reuse_and_late(run):
             if got != want:
                 run.findings.append(Finding("failing-input", f"a decorated dataclass derived from a dataclass ({order}): constructions give {got}, the fields demand {want}",
                                             Case(f"INHERIT\t{order}", "inherit"), str(got), "", str(want)))
+        # (a'') functions made by ONE factory (they share a code object) that differ in the default of a hinted parameter: each is
+        # checked with ITS default, whichever was made / decorated / called first
+        def row(k):
+            return np.zeros((k,), np.float32)
+
+        fsrc = ("def make(default):\n    @dltype.dltyped()\n    def scale(x: V, w: V = default) -> None:\n        SEEN.append(len(w))\n        return None\n    return scale\n")
+        for order in ((3, 5), (5, 3), (3, 5, 4)):
+            nsf = {"dltype": dltype, "V": An[np.ndarray, dltype.FloatTensor["n"]], "SEEN": []}
+            exec(compile(fsrc, "<factory>", "exec", dont_inherit=True), nsf)  # noqa: S102
+            made = {k: nsf["make"](row(k)) for k in order}
+            for k in order[::-1] + order:
+                for arg in (3, 4, 5):
+                    n += 1
+                    del nsf["SEEN"][:]
+                    got, want = verdict(made[k], row(arg)), ("ok" if arg == k else "DLTypeShapeError")
+                    if got != want or (got == "ok" and nsf["SEEN"] != [k]):
+                        run.findings.append(Finding("failing-input", f"functions made by one factory with defaults of length {order}: the one whose default has length {k}, called with x of length {arg} "
+                                                    f"and w left at its default, gives {got} (body saw w of length {nsf['SEEN']}), expected {want}",
+                                                    Case(f"FACTORY\t{order}\t{k}\t{arg}", "factory"), got, "", want))
         # (b) late forward reference
         ns = {"dltype": dltype, "np": np, "An": An}
         src = ("@dltype.dltyped()\ndef early(x: 'Late') -> None:\n    return None\n"
